@@ -1,16 +1,19 @@
 ---------------------------- MODULE TarRoundTrip_Universe ----------------------------
 (* The pool of entries shared by TarRoundTrip_MC / _Laws / _Export: one directory, a hard link
-   group of three (one member named THROUGH a symlinked directory), a second group reached through
+   group of three (one member named THROUGH a symlinked directory), a hard link pair on another
+   device with the SAME inode number as that group, a second group reached through
    a symlink CHAIN, files without inode information, a link with a "../" target whose destination
    directory is not part of the set, a fifo.  Hard links share their attributes (one inode).    *)
 EXTENDS TarRoundTrip, FiniteSetsExt
 
 Base(p, t) == [path |-> p, type |-> t, mode |-> 493, uid |-> 0, gid |-> 0, msec |-> 1400000000, musec |-> 0,
                target |-> "", tabs |-> FALSE, tcomps |-> <<>>, cid |-> 0, major |-> 0, minor |-> 0,
-               devkind |-> "-", ino |-> 0]
+               devkind |-> "-", dev |-> 0, ino |-> 0]
 D(p)            == [Base(p, "dir") EXCEPT !.mode = 488, !.uid = 7, !.gid = 8, !.msec = 1400000001]
-F(p, ino, cid)  == [Base(p, "file") EXCEPT !.ino = ino, !.cid = cid, !.mode = 416 + ino + 2 * cid, !.uid = 1000 + ino + cid,
-                                           !.gid = 100 + ino, !.msec = 1500000000 + ino + 10 * cid, !.musec = 250000 * ino]
+FD(p, dev, ino, cid) == [Base(p, "file") EXCEPT !.dev = dev, !.ino = ino, !.cid = cid, !.mode = 416 + ino + 2 * cid,
+                                           !.uid = 1000 + ino + cid, !.gid = 100 + ino + 7 * dev,
+                                           !.msec = 1500000000 + ino + 10 * cid, !.musec = 250000 * ino]
+F(p, ino, cid)  == FD(p, 1, ino, cid)
 S(p, ab, tc, t) == [Base(p, "sym") EXCEPT !.tabs = ab, !.tcomps = tc, !.target = t, !.mode = 511, !.msec = 1300000000]
 P(p)            == [Base(p, "fifo") EXCEPT !.mode = 384, !.uid = 3]
 
@@ -29,7 +32,9 @@ Pool == <<
     D(<<"d", "up", "sub">>),                             \* really e/sub
     P(<<"d", "p">>),
     S(<<"a">>, TRUE, <<"d", "up">>, "/d/up"),            \* absolute, through another link
-    F(<<"a", "h">>, 2, 2)                                \* really e/h
+    F(<<"a", "h">>, 2, 2),                               \* really e/h
+    FD(<<"s1">>, 2, 1, 4),                               \* a hard link pair on a SECOND device whose inode
+    FD(<<"s2">>, 2, 1, 4)                                \* number collides with the group d/f1, d/f2, l/f4
 >>
 PoolSet == {Pool[i] : i \in DOMAIN Pool}
 \* the in-domain subsets of at most n entries
